@@ -92,6 +92,11 @@ func (w *world) registryTxs() []txT {
 	ts = append(ts, entityTx("entity1-update nodes=[1,3]", k.EntityDescriptor(1, []int{1, 3}), k.Entities[1], k.Entities[1]))
 	ts = append(ts, nodeTx("node3-new for e1", k.NodeDescriptor(3, 1, 6, node.RoleValidator), k.NodeSigners(3), k.Nodes[3].NodeSigner))
 	ts = append(ts, nodeTx("node3-new for e1 observer", k.NodeDescriptor(3, 1, 6, node.RoleObserver), k.NodeSigners(3), k.Nodes[3].NodeSigner))
+	// a node changing its entity: entity 0 lists node 1, node 1 (entity 1; the node that expires early in
+	// the registry universes) re-registers naming entity 0 (refused while the old record exists, live or
+	// expired; a fresh registration once it was removed)
+	ts = append(ts, entityTx("entity0-update nodes=[0,1]", k.EntityDescriptor(0, []int{0, 1}), k.Entities[0], k.Entities[0]))
+	ts = append(ts, nodeTx("node1-reregister under e0", k.NodeDescriptor(1, 0, 13, node.RoleValidator), k.NodeSigners(1), k.Nodes[1].NodeSigner))
 	ts = append(ts, nodeTx("node1 expired descriptor(exp1)", k.NodeDescriptor(1, 1, 1, node.RoleValidator), k.NodeSigners(1), k.Nodes[1].NodeSigner))
 	ts = append(ts, nodeTx("node1 expiration too far(exp99)", k.NodeDescriptor(1, 1, 99, node.RoleValidator), k.NodeSigners(1), k.Nodes[1].NodeSigner))
 	ts = append(ts, nodeTx("node2 roles=validator->observer", k.NodeDescriptor(2, 2, 6, node.RoleObserver), k.NodeSigners(2), k.Nodes[2].NodeSigner))
